@@ -213,6 +213,8 @@ def main(ctx):
     ctx.cov["cli_level_fault_injection"] = cli_stats.get("cli_level", {})
     dynamic_faults(ctx, cli_stats)
     ctx.cov["dynamic_solver_fault_injection"] = cli_stats.get("dynamic_level", {})
+    ctx.floor("cli_fault_runs", cli_stats.get("cli_level", {}).get("fault_runs", 0))
+    ctx.floor("dynamic_histories_aborted_at_the_faulty_call", cli_stats.get("dynamic_level", {}).get("aborted_at_the_faulty_call", 0))
     static_check(
         ctx, "static", total, extra="--faults", judge=judge, extra_stats=extra,
         rule="generated frameworks x all 18 library problems x encoders x with/without certificate; each query is first run fault-free to count its SAT calls K, then re-run once per call position k < K (all positions when K <= 10, else first/last two and six random ones) with the k-th answer replaced by Unknown through a SatSolver wrapper injected by the public factory API; outcome must be an abort (panic) with the Unknown as the last SAT event, and the whole trace is replayed on Model.Solvers, for which C17_unknown_aborts is proved",
